@@ -18,10 +18,15 @@ Vocabulary
   entries are never transmitted in the TX role and would block the FIFO head).  `s.TxReady`: the
   radio exists, is powered up in the TX role, `LiteTxInv`, and nothing is pending (not in TX mode, or
   MAX_RT latched, or TX FIFO empty) — the state every `send()` / `resend()` leaves behind.
+* lite driver as RECEIVER (last section): `C20_full_to_lite` — full driver `send()` → lite driver `read()`
+  returns the expected payload (hypotheses of `C01_delivery` + the receiver chip shows FEATURE);
+  `lite_read_head` (`NrfProofs/LiteRecv.lean`): lite `read()` returns and removes the FIFO head.
 * quiet state: the radio is not in TX mode (`txMode = false`: CE low, RX role, or powered down), so
   an SPI transaction is exactly the command on the chip; FIFO-level statements are made there.
 -/
 import NrfProofs.LiteSend
+import NrfProofs.LiteRecv
+import NrfProps.C01
 
 namespace Nrf.Props.C20
 open Nrf Lite Spec.Lite
@@ -306,7 +311,7 @@ example : expectedPayload false 5 [9, 9] = [9, 9, 0, 0, 0] ∧ expectedPayload f
 /-- SCOPE: `write(buf, ask_no_ack, write_only=True)` of both drivers on an IDENTICAL chip state `r`
     (hypotheses `hrL`, `hrF`): TX side only, nothing goes on the air, and "equal configuration" means
     "both objects sit on the same register contents" — nothing here says that the lite and the full
-    SETTERS produce compatible configurations, and no theorem has the lite driver as RECEIVER.
+    SETTERS produce compatible configurations (lite as RECEIVER: `C20_full_to_lite`, last section).
     **Equal configuration ⇒ equal radio.**  Take the same chip `r` (CE low as at the start of `send()`,
     powered up in the TX role — C02's precondition) driven once by a lite object and once by a full
     `RF24` object whose cached view of the payload-length mode agrees with the registers (C03's
@@ -360,10 +365,10 @@ theorem C20_interop (sL : LiteState) (sF : DrvState) (r : Radio)
 
 /-- CONGRUENCE COROLLARY, not a delivery theorem: the proof is `rw [h]; exact ⟨rfl, rfl, rfl⟩` with
     `h : radioL = radioF` from `C20_interop`; `e : TxEntry` and `rx` are arbitrary (not tied to the FIFO
-    head or to any configured receiver).  "Delivery holds in all four pairings" below is PROSE: there is
-    NO theorem with the lite driver as receiver (`read`, `any`, `available`, `pipe`, RX configuration via
-    lite `open_rx_pipe` / `listen`); the pairings full→lite and lite→lite are covered by the
-    correspondence / interop runs only (tie-only).
+    head or to any configured receiver).  "Delivery holds in all four pairings" below is PROSE; the
+    pairing full→lite is now a theorem (`C20_full_to_lite`: lite `read()` as receiver, receiver registers
+    assumed `Compatible`); lite→lite and the lite accessors `any` / `available` / `pipe` and RX
+    configuration via lite `open_rx_pipe` / `listen` composed with delivery remain tie-only.
     Hence the packet that goes on the air when CE is raised (`Radio.packetFor` of the TX FIFO head:
     channel, rate, CRC, address, PID, NO_ACK flag, payload) is the same for both drivers, and so is
     what **any** receiving radio — whichever driver configured it — makes of it (`Radio.receive`:
@@ -462,5 +467,270 @@ example : (match (lexec (do
       send [4] false) { d := {}, w := World.fresh 1 }).1 with
     | .error .diverge => true
     | _ => false) = true := by decide +kernel
+
+end Nrf.Props.C20
+
+/-! ## the lite driver as RECEIVER: full driver `send()` → lite driver `read()` (review item) -/
+
+namespace Nrf.Props.C20
+open Nrf Spec.Link
+
+/-- the receiver side after the full driver's `send()`, as the lite object finds it: its radio exists,
+    listens, holds exactly the expected payload on pipe `p`, and satisfies the side condition of the
+    lite `any()` (helper for the two theorems below; same hypotheses) -/
+theorem C20_full_to_lite_state (s : DrvState) (buf : Bytes) (m askNoAck : Bool) (n : Nat) (sendOnly : Bool) (j p : Nat)
+    (dyn : Bool) (h : SendPre s buf sendOnly) (henv : AckEnv s.rad (s.sendPacket askNoAck buf) s)
+    (hc : Compatible s j p dyn) (hempty : (s.w.radio j).rxFifo = [])
+    (hnd : (s.w.radio j).isDup (s.sendPacket askNoAck buf) = false)
+    (hvis : (s.w.radio j).featureVisible = true) (dL : Lite) (hdL : dL.rid = j) :
+    let sL : LiteState := { d := dL, w := (exec (Rf24.send buf m askNoAck (n : Int) sendOnly) s).2.w }
+    sL.Wf ∧ sL.radio.primRx = true ∧ sL.radio.RxWf ∧
+    sL.radio.rxFifo = [⟨p, expectedPayload dyn (s.d.plLen.getD 0 0) buf⟩] ∧
+    ((sL.radio.readReg 0x1D).headD 0 &&& 4 = 0 →
+      sL.radio.rxPw.getD p 0 = (expectedPayload dyn (s.d.plLen.getD 0 0) buf).length) := by
+  intro sL0
+  have key : ∀ w', w' = (exec (Rf24.send buf m askNoAck (n : Int) sendOnly) s).2.w →
+      ({ d := dL, w := w' } : LiteState).Wf ∧ ({ d := dL, w := w' } : LiteState).radio.primRx = true ∧
+      ({ d := dL, w := w' } : LiteState).radio.RxWf ∧
+      ({ d := dL, w := w' } : LiteState).radio.rxFifo = [⟨p, expectedPayload dyn (s.d.plLen.getD 0 0) buf⟩] ∧
+      ((({ d := dL, w := w' } : LiteState).radio.readReg 0x1D).headD 0 &&& 4 = 0 →
+        ({ d := dL, w := w' } : LiteState).radio.rxPw.getD p 0 = (expectedPayload dyn (s.d.plLen.getD 0 0) buf).length) := by
+    intro w'' hw''
+    subst hw''
+    obtain ⟨hrx, _, hcfg⟩ := C01.C01_delivery s buf m askNoAck n sendOnly j p dyn h henv hc (by rw [hempty]; decide) hnd
+    rw [hempty, List.nil_append] at hrx
+    generalize hw' : (exec (Rf24.send buf m askNoAck (n : Int) sendOnly) s).2.w = w' at *
+    obtain ⟨_, ⟨att, _, _, _, hrun⟩, _, _⟩ := send_final s buf m askNoAck n sendOnly h henv
+    have hlen' : w'.radios.length = s.w.radios.length := by rw [← hw']; exact hrun.sent.len
+    let sL : LiteState := { d := dL, w := w' }
+    have hrad : sL.radio = w'.radio j := by show w'.radio dL.rid = _; rw [hdL]
+    have hwf : sL.Wf := by show dL.rid < w'.radios.length; rw [hdL, hlen']; exact hc.lt
+    have hp5 : p ≤ 5 := Radio.matchPipe_le _ _ _ hc.pipe
+    have hne : expectedPayload dyn (s.d.plLen.getD 0 0) buf ≠ [] := by
+      unfold expectedPayload
+      cases dyn with
+      | true =>
+        simp only [↓reduceIte]
+        have hm := hc.modeDrv
+        exact (h.lenOk (by simpa using hm)).1
+      | false =>
+        simp only [Bool.false_eq_true, ↓reduceIte]
+        obtain ⟨_, h1, _⟩ := hc.width rfl
+        intro hz
+        have := congrArg List.length hz
+        simp only [List.length_take, List.length_append, List.length_replicate, List.length_nil] at this
+        omega
+    have hrxwf : sL.radio.RxWf := by
+      rw [hrad]; intro e he; rw [hrx] at he
+      simp only [List.mem_cons, List.not_mem_nil, or_false] at he; subst he; exact ⟨hp5, hne⟩
+    have hconfig : (w'.radio j).config = (s.w.radio j).config := by have := congrArg Radio.config hcfg; exact this
+    have hprim : sL.radio.primRx = true := by
+      rw [hrad]
+      unfold Radio.primRx; rw [hconfig]
+      have := hc.listening
+      unfold Radio.rxMode at this
+      simp only [Bool.and_eq_true] at this
+      exact this.1.2
+    have hfifo : sL.radio.rxFifo = ⟨p, expectedPayload dyn (s.d.plLen.getD 0 0) buf⟩ :: [] := by rw [hrad, hrx]
+    have hsz : (sL.radio.readReg 0x1D).headD 0 &&& 4 = 0 →
+        sL.radio.rxPw.getD (⟨p, expectedPayload dyn (s.d.plLen.getD 0 0) buf⟩ : RxEntry).pipe 0 =
+          (⟨p, expectedPayload dyn (s.d.plLen.getD 0 0) buf⟩ : RxEntry).data.length := by
+      intro hz
+      rw [hrad] at hz ⊢
+      have hfeat : (w'.radio j).feature = (s.w.radio j).feature := by have := congrArg Radio.feature hcfg; exact this
+      have hplus : (w'.radio j).plus = (s.w.radio j).plus := by have := congrArg Radio.plus hcfg; exact this
+      have hact : (w'.radio j).activated = (s.w.radio j).activated := by have := congrArg Radio.activated hcfg; exact this
+      have hpw : (w'.radio j).rxPw = (s.w.radio j).rxPw := by have := congrArg Radio.rxPw hcfg; exact this
+      have hv' : (w'.radio j).featureVisible = true := by
+        unfold Radio.featureVisible at hvis ⊢; rw [hplus, hact]; exact hvis
+      have hz' : (s.w.radio j).feature &&& 4 = 0 := by
+        have : (w'.radio j).readReg 0x1D = [(w'.radio j).feature] := by
+          show [if (w'.radio j).featureVisible then (w'.radio j).feature else 0] = _
+          rw [hv']; rfl
+        rw [this, hfeat] at hz
+        exact hz
+      cases dyn with
+      | true =>
+        exfalso
+        have hm := hc.modeRx
+        simp only [Bool.and_eq_true, Radio.dplOn, decide_eq_true_eq] at hm
+        exact hm.2.1 hz'
+      | false =>
+        obtain ⟨hwd, h1, _⟩ := hc.width rfl
+        show (w'.radio j).rxPw.getD p 0 = (expectedPayload false (s.d.plLen.getD 0 0) buf).length
+        rw [hpw, hwd]
+        unfold expectedPayload
+        simp only [Bool.false_eq_true, ↓reduceIte, List.length_take, List.length_append, List.length_replicate]
+        omega
+    exact ⟨hwf, hprim, hrxwf, hfifo, hsz⟩
+  exact key _ rfl
+
+/-- **Delivery full driver → lite driver.**  The hypotheses on the link are exactly those of
+    `C01_delivery` / `C01_read_back` (`SendPre`, `AckEnv`, `Compatible s j p dyn`: same channel / rate
+    / packet format / CRC / address width, receiver radio `j` listening, `p` its lowest enabled pipe
+    matching the TX address, both ends in payload-length mode `dyn`, static width of pipe `p` = the
+    length the transmitter pads to, undisturbed air; RX FIFO of `j` empty before; not a duplicate of
+    the last accepted packet) — but the object that reads the receiver's FIFO is an **`rf24_lite`
+    object `dL`** on radio `j`, in ANY shadow state (its `read()` consults the chip, not shadows).
+    `hvis`: the receiver chip shows its FEATURE register (an nRF24L01+ — the only chip `rf24_lite`
+    documents — or an activated non-plus chip).
+    Then after the full driver's `send(buf)` (any payload, both buffer kinds, any `force_retry`,
+    `ask_no_ack` / `send_only` on or off) the lite object's `read()` returns **exactly the expected
+    payload** (the buffer in dynamic mode; zero-padded / truncated to the static length otherwise) and
+    leaves the RX FIFO empty; a second `read()` is not stated here.
+    The receiver's CONFIGURATION is a hypothesis about registers (`Compatible`), whichever driver wrote
+    them: that lite `open_rx_pipe` / `listen = True` produce such registers is `C20_listen_restore` /
+    `C20_config_history`, not composed here. -/
+theorem C20_full_to_lite (s : DrvState) (buf : Bytes) (m askNoAck : Bool) (n : Nat) (sendOnly : Bool) (j p : Nat)
+    (dyn : Bool) (h : SendPre s buf sendOnly) (henv : AckEnv s.rad (s.sendPacket askNoAck buf) s)
+    (hc : Compatible s j p dyn) (hempty : (s.w.radio j).rxFifo = [])
+    (hnd : (s.w.radio j).isDup (s.sendPacket askNoAck buf) = false)
+    (hvis : (s.w.radio j).featureVisible = true) (dL : Lite) (hdL : dL.rid = j) :
+    (lexec (Lite.read none) { d := dL, w := (exec (Rf24.send buf m askNoAck (n : Int) sendOnly) s).2.w }).1 =
+      .ok (some (expectedPayload dyn (s.d.plLen.getD 0 0) buf)) ∧
+    (lexec (Lite.read none) { d := dL, w := (exec (Rf24.send buf m askNoAck (n : Int) sendOnly) s).2.w }).2.radio.rxFifo
+      = [] := by
+  obtain ⟨hwf, hprim, hrxwf, hfifo, hsz⟩ :=
+    C20_full_to_lite_state s buf m askNoAck n sendOnly j p dyn h henv hc hempty hnd hvis dL hdL
+  obtain ⟨r1, r2, _, _⟩ := lite_read_head _ hwf hprim hrxwf _ [] hfifo hsz
+  exact ⟨r1, r2⟩
+
+/-- **… and the lite accessors agree, and the payload is read exactly once.**  Same hypotheses.  On the
+    world the full driver's `send()` leaves, the lite object's `available()` is `True`, `any()` is the
+    length of the expected payload, `update()` then `pipe` is `p`; and after its `read()` (which
+    returned the payload, `C20_full_to_lite`) `available()` is `False` and a second `read()` returns
+    `None`. -/
+theorem C20_full_to_lite_accessors (s : DrvState) (buf : Bytes) (m askNoAck : Bool) (n : Nat) (sendOnly : Bool)
+    (j p : Nat) (dyn : Bool) (h : SendPre s buf sendOnly) (henv : AckEnv s.rad (s.sendPacket askNoAck buf) s)
+    (hc : Compatible s j p dyn) (hempty : (s.w.radio j).rxFifo = [])
+    (hnd : (s.w.radio j).isDup (s.sendPacket askNoAck buf) = false)
+    (hvis : (s.w.radio j).featureVisible = true) (dL : Lite) (hdL : dL.rid = j) :
+    let sL : LiteState := { d := dL, w := (exec (Rf24.send buf m askNoAck (n : Int) sendOnly) s).2.w }
+    (lexec Lite.available sL).1 = .ok true ∧
+    (lexec Lite.any sL).1 = .ok (expectedPayload dyn (s.d.plLen.getD 0 0) buf).length ∧
+    (lexec (do let _ ← Lite.update; Lite.pipe) sL).1 = .ok (some p) ∧
+    (lexec Lite.available (lexec (Lite.read none) sL).2).1 = .ok false ∧
+    (lexec (Lite.read none) (lexec (Lite.read none) sL).2).1 = .ok none := by
+  intro sL
+  obtain ⟨hwf, hprim, hrxwf, hfifo, hsz⟩ :=
+    C20_full_to_lite_state s buf m askNoAck n sendOnly j p dyn h henv hc hempty hnd hvis dL hdL
+  obtain ⟨a1, _⟩ := lite_available sL hwf hprim hrxwf
+  obtain ⟨a2, _⟩ := lite_any_head sL hwf hprim hrxwf _ [] hfifo hsz
+  have a3 := lite_update_pipe sL hwf hprim hrxwf
+  obtain ⟨_, r2, r3, hwf2⟩ := lite_read_head sL hwf hprim hrxwf _ [] hfifo hsz
+  have hprim2 : (lexec (Lite.read none) sL).2.radio.primRx = true := by
+    rw [Radio.primRx_congr_l r3]; exact hprim
+  obtain ⟨a4, _⟩ := lite_available _ hwf2 hprim2 (Radio.rxWf_nil_l r2)
+  obtain ⟨a5, _⟩ := lite_read_empty _ hwf2 hprim2 r2
+  refine ⟨?_, a2, ?_, ?_, a5⟩
+  · rw [a1, hfifo]; rfl
+  · rw [a3, hfifo]; rfl
+  · rw [a4, r2]; rfl
+
+/-- EVERY hypothesis of `C20_full_to_lite` on a concrete pair: `C01.exState` (radio 0 a PTX driven by
+    the full driver, radio 1 listening on the same address, 32-byte static payloads, auto-ack), payload
+    `[1, 2, 3]`, a lite object on radio 1 -/
+example :
+    SendPre C01.exState [1, 2, 3] false ∧
+    AckEnv C01.exState.rad (C01.exState.sendPacket false [1, 2, 3]) C01.exState ∧
+    Compatible C01.exState 1 0 false ∧ (C01.exState.w.radio 1).rxFifo = [] ∧
+    (C01.exState.w.radio 1).isDup (C01.exState.sendPacket false [1, 2, 3]) = false ∧
+    (C01.exState.w.radio 1).featureVisible = true ∧ (∃ dL : Lite, dL.rid = 1) := by
+  refine ⟨⟨by decide, by decide, by decide, Or.inr rfl, fun _ => Or.inl rfl, fun h => absurd h (by decide), fun _ => by decide⟩,
+    ackEnv_of_ackOk _ _ _ ?_ (fun h => absurd h (by decide)),
+    ⟨by decide, by decide, by decide, rfl, rfl, rfl, rfl, rfl, by decide, by decide, by decide, by decide, by decide,
+      fun _ => by decide, rfl⟩,
+    by decide, by decide, by decide, ⟨{ rid := 1 }, rfl⟩⟩
+  intro q hq hne
+  have hq' : q < 2 := hq
+  have : q = 1 := by
+    have h0 : q ≠ 0 := hne
+    omega
+  subst this
+  exact ⟨fun e he => (by cases he), fun d hd => (by cases hd)⟩
+
+/-- … and the conclusion on it, evaluated by the kernel on the two MODELS (full `send()` then lite
+    `read()`): the 3-byte buffer arrives zero-padded to the static length 32; the FIFO is empty after -/
+example :
+    (lexec (Lite.read none)
+      { d := { rid := 1 }, w := (exec (Rf24.send [1, 2, 3] false false 0 false) C01.exState).2.w }).1.toOption
+      = some (some ([1, 2, 3] ++ List.replicate 29 0)) ∧
+    (lexec (Lite.read none)
+      { d := { rid := 1 }, w := (exec (Rf24.send [1, 2, 3] false false 0 false) C01.exState).2.w }).2.radio.rxFifo
+      = [] := by
+  decide +kernel
+
+/-- the same pair with dynamic payloads on both chips (EN_DPL, DYNPD = 0x3F; the lite `any()` takes the
+    R_RX_PL_WID branch): the buffer arrives unchanged (kernel evaluation of the two models) -/
+example :
+    (lexec (Lite.read none)
+      { d := { rid := 1 },
+        w := (exec (Rf24.send [1, 2, 3] false false 0 false)
+          { d := {}, w := { radios := [{ config := 0x0E, feature := 4, dynpd := 0x3F },
+                                      { config := 0x0F, ce := true, feature := 4, dynpd := 0x3F }],
+                            busyUntil := [0, 0] } }).2.w }).1.toOption = some (some [1, 2, 3]) := by
+  decide +kernel
+
+/-- `C20_full_to_lite_accessors` on the same concrete pair (its hypotheses are those instantiated
+    above), evaluated by the kernel on the two models: available, any = 32, pipe 0, then empty -/
+example :
+    let sL : LiteState :=
+      { d := { rid := 1 }, w := (exec (Rf24.send [1, 2, 3] false false 0 false) C01.exState).2.w }
+    (lexec Lite.available sL).1.toOption = some true ∧ (lexec Lite.any sL).1.toOption = some 32 ∧
+    (lexec (do let _ ← Lite.update; Lite.pipe) sL).1.toOption = some (some 0) ∧
+    (lexec Lite.available (lexec (Lite.read none) sL).2).1.toOption = some false ∧
+    (lexec (Lite.read none) (lexec (Lite.read none) sL).2).1.toOption = some none := by
+  decide +kernel
+
+/-! ### a receiver configured by LITE calls only, a transmitter configured by FULL-driver calls only
+
+`C20_full_to_lite` takes the receiver's registers as a hypothesis (`Compatible`).  That lite setter
+calls do produce such registers is shown here on ONE concrete session (kernel evaluation of the
+models — a demonstration that the hypotheses are met by states the two drivers really produce, not
+a theorem about all configurations). -/
+
+/-- two fresh nRF24L01+; on radio 1 an `rf24_lite` object runs `__init__`, `open_rx_pipe(0, addr)`,
+    `listen = True` -/
+def liteRxWorld : World :=
+  (lexec (do Lite.init; Lite.openRxPipe 0 [0xC2, 0xC2, 0xC2, 0xC2, 0xC2]; Lite.setListen true)
+    { d := { rid := 1 }, w := World.fresh 2 }).2.w
+
+/-- … then on radio 0 a full `RF24` object runs `__init__`, `__enter__`, `listen = False`,
+    `open_tx_pipe(addr)` -/
+def fullTxState : DrvState :=
+  (exec (do Rf24.init; Rf24.enter; Rf24.setListen false; Rf24.openTxPipe [0xC2, 0xC2, 0xC2, 0xC2, 0xC2])
+    { d := { rid := 0 }, w := liteRxWorld }).2
+
+/-- every hypothesis of `C20_full_to_lite` / `C20_full_to_lite_accessors` holds of that session
+    (dynamic payloads, pipe 0), for the payload `[1, 2, 3]` -/
+example :
+    SendPre fullTxState [1, 2, 3] false ∧
+    AckEnv fullTxState.rad (fullTxState.sendPacket false [1, 2, 3]) fullTxState ∧
+    Compatible fullTxState 1 0 true ∧ (fullTxState.w.radio 1).rxFifo = [] ∧
+    (fullTxState.w.radio 1).isDup (fullTxState.sendPacket false [1, 2, 3]) = false ∧
+    (fullTxState.w.radio 1).featureVisible = true ∧ (∃ dL : Lite, dL.rid = 1) := by
+  refine ⟨⟨by decide +kernel, by decide +kernel, by decide +kernel, by decide +kernel, fun _ => by decide +kernel,
+      fun _ => by decide, fun h => absurd h (by decide +kernel)⟩,
+    ackEnv_of_ackOk _ _ _ ?_ (fun _ => by decide +kernel),
+    ⟨by decide +kernel, by decide +kernel, by decide +kernel, by decide +kernel, by decide +kernel, by decide +kernel,
+      by decide +kernel, by decide +kernel, by decide +kernel, by decide +kernel, by decide +kernel,
+      by decide +kernel, by decide +kernel, fun h => absurd h (by decide), by decide +kernel⟩,
+    by decide +kernel, by decide +kernel, by decide +kernel, ⟨{ rid := 1 }, rfl⟩⟩
+  intro q hq hne
+  have hq' : q < 2 := by
+    have : fullTxState.w.radios.length = 2 := by decide +kernel
+    omega
+  have hrid : fullTxState.d.rid = 0 := by decide +kernel
+  rw [hrid] at hne
+  have : q = 1 := by omega
+  subst this
+  exact ⟨by decide +kernel, by decide +kernel⟩
+
+/-- … and the lite object reads what the full driver sent (kernel evaluation) -/
+example :
+    (lexec (Lite.read none)
+      { d := { rid := 1 }, w := (exec (Rf24.send [1, 2, 3] false false 0 false) fullTxState).2.w }).1.toOption
+      = some (some [1, 2, 3]) := by
+  decide +kernel
 
 end Nrf.Props.C20
